@@ -1,5 +1,7 @@
 import Pff.Props.Chain
 import Pff.Props.C15
+import Pff.Proofs.Chain3
+import Pff.Proofs.Chain4
 /-!
 # Chains, continued: erasure mode (C01) and the index companion (C15)
 
@@ -46,7 +48,13 @@ theorem C01_chain_A_erasures (algo k0 sym : Nat) (ha : algo = 1 ∨ algo = 2 ∨
           o.effect = .wrote (restored P ds[i])) ∧
         (∀ out, o.result.output = some out → out = restored P ds[i])) ∧
     exitOf r = 0 := by
-  sorry
+  exact Pff.ChainProofs.chain_generic_erasures (codecA algo P.mbs k0) core
+    (Pff.ChainProofs.codecLenA algo P.mbs k0 ha hP.mbs)
+    (Pff.BridgeProofs.codecFactsA algo P.mbs k0 ha hP.mbs)
+    (Pff.BridgeProofs.decFactsA algo P.mbs k0 ha hP.mbs core hW)
+    H sym hsym hashLen hH P rfl hP.hash hP.kMain hP.kOf hP.kIntra _ rfl pre ds hfiles hdistinct
+    (fun d hd => ⟨(hcap d hd).lenNow, (hcap d hd).lenTrack, (hcap d hd).bytesOrig, (hcap d hd).bytesNow,
+      (hcap d hd).bytesTrack, (hcap d hd).blocks⟩) hacc
 
 theorem C01_chain_B_erasures (k0 sym : Nat) (hsym : sym < 256)
     (core : Core (Elt pB)) (H : List Nat → List Nat) (hashLen : Nat) (hH : ∀ m, (H m).length = hashLen)
@@ -67,7 +75,13 @@ theorem C01_chain_B_erasures (k0 sym : Nat) (hsym : sym < 256)
           o.effect = .wrote (restored P ds[i])) ∧
         (∀ out, o.result.output = some out → out = restored P ds[i])) ∧
     exitOf r = 0 := by
-  sorry
+  exact Pff.ChainProofs.chain_generic_erasures (codecB P.mbs k0) core
+    (Pff.ChainProofs.codecLenB P.mbs k0 hP.mbs)
+    (Pff.BridgeProofs.codecFactsB P.mbs k0 hP.mbs)
+    (Pff.BridgeProofs.decFactsB P.mbs k0 hP.mbs core hW)
+    H sym hsym hashLen hH P rfl hP.hash hP.kMain hP.kOf hP.kIntra _ rfl pre ds hfiles hdistinct
+    (fun d hd => ⟨(hcap d hd).lenNow, (hcap d hd).lenTrack, (hcap d hd).bytesOrig, (hcap d hd).bytesNow,
+      (hcap d hd).bytesTrack, (hcap d hd).blocks⟩) hacc
 
 /-! ## index companion -/
 
@@ -85,7 +99,10 @@ theorem C15_chain_A (algo k0 : Nat) (ha : algo = 1 ∨ algo = 2 ∨ algo = 3)
     (hagree : AgreeOutside (genIdx pre.length es) (genEcc pre es) file')
     (hidx : IdxWithinCapacity (opsOfFacade (codecA algo 27 k0) core H false 0 false) (genIdx pre.length es) idx') :
     recoverIdx (opsOfFacade (codecA algo 27 k0) core H false 0 false) 27 9 idx' file' = some (genEcc pre es) := by
-  sorry
+  exact Pff.ChainProofs.idx_chain (codecA algo 27 k0) core
+    (Pff.BridgeProofs.codecFactsA algo 27 k0 ha (by omega))
+    (Pff.BridgeProofs.decFactsA algo 27 k0 ha (by omega) core hW)
+    H rfl pre es idx' file' hsmall hagree hidx.len hidx.bytes hidx.blocks
 
 theorem C15_chain_B (k0 : Nat)
     (core : Core (Elt pB)) (hW : CoreW (codecB 27 k0) core) (H : List Nat → List Nat)
@@ -94,6 +111,9 @@ theorem C15_chain_B (k0 : Nat)
     (hagree : AgreeOutside (genIdx pre.length es) (genEcc pre es) file')
     (hidx : IdxWithinCapacity (opsOfFacade (codecB 27 k0) core H false 0 false) (genIdx pre.length es) idx') :
     recoverIdx (opsOfFacade (codecB 27 k0) core H false 0 false) 27 9 idx' file' = some (genEcc pre es) := by
-  sorry
+  exact Pff.ChainProofs.idx_chain (codecB 27 k0) core
+    (Pff.BridgeProofs.codecFactsB 27 k0 (by omega))
+    (Pff.BridgeProofs.decFactsB 27 k0 (by omega) core hW)
+    H rfl pre es idx' file' hsmall hagree hidx.len hidx.bytes hidx.blocks
 
 end Pff.Chain
